@@ -247,6 +247,39 @@ def batch_inv_checks(run, maxlen):
     run.add_functions(["util::batch_inversion"])
 
 
+def vanishing_over_coset(run):
+    """closed form v_i = (g*w^i)^d - 1 on the 2^k-point coset for EVERY degree d in 1..2^k-1 (powers of two
+    and all others); no symbolic input: a ground identity per (k, d), the solver compares constants"""
+    for lg in (3, 4):
+        n8 = 1 << lg
+        dom = fw.run_driver(fw.REAL_BIN, ["kernels", "barycentric", str(lg), "1"], run.seed)["outputs"]["domain"]
+        g, w = int(dom["g"], 16), int(dom["w"], 16)
+        for deg in range(1, n8):
+            real = fw.run_driver(fw.REAL_BIN, ["kernels", "vanishing_coset", str(lg), str(deg)], run.seed)["outputs"]
+            symb = fw.run_driver(fw.SYM_BIN, ["kernels", "vanishing_coset", str(lg), str(deg)], run.seed)["outputs"]
+            run.validation["points"] += 1
+            if symb["out"] != real["out"]:
+                run.validation["mismatches"] += 1
+            want = [(pow(g * pow(w, i, smt.R), deg, smt.R) - 1) % smt.R for i in range(n8)]
+            got = [int(x, 16) for x in real["out"]]
+            terms = " ".join(f"(= (mod (- (* {pow(g * pow(w, i, smt.R), deg - 1, smt.R)} {g * pow(w, i, smt.R) % smt.R}) 1) {smt.R}) {x})"
+                             for i, x in enumerate(got))
+
+            def rp(_m, want=want, got=got, lg=lg, deg=deg, real=real):
+                bad = [i for i in range(len(want)) if i >= len(got) or want[i] != got[i]]
+                return bool(bad) or len(got) != len(want), {"domain_log": lg, "degree": deg, "first_bad_index": bad[:1],
+                                                            "real_output_len": len(got)}
+            if len(got) != n8:
+                terms += " false"
+            run.obligation(f"vanishing-over-coset/n{n8}/deg{deg}", [], [f"(not (and true {terms}))"], "unsat",
+                           "identity", get_model=False, replay=rp)
+            if not real.get("matches", True):
+                run.inconclusive.append(f"vanishing-over-coset/n{n8}/deg{deg}: matches_vanishing_poly_over_coset rejects "
+                                        "the generator's own output")
+    run.add_functions(["EvaluationDomain::vanishing_poly_over_coset", "matches_vanishing_poly_over_coset"])
+    run.bounds.append("vanishing over the coset: domains 8 and 16, every degree 1..size-1 (the documented precondition degree < size; ground identities)")
+
+
 def closed_forms(run, logs):
     import xengine as xe
     for lg in logs:
@@ -480,6 +513,7 @@ def run(run):
     poly_checks(run, 3 if quick else 4)
     batch_inv_checks(run, 3 if quick else 4)
     closed_forms(run, [1, 2, 3])
+    vanishing_over_coset(run)
     par = [("fft", 12, 4), ("fft", 12, 17), ("coset_fft", 12, 16), ("ifft", 12, 17)] if quick else \
         [(op, lg, t) for op in ("fft", "ifft", "coset_fft", "coset_ifft") for lg in (12, 13) for t in (1, 3, 4, 9, 16, 17)] + \
         [("fft", 14, 17), ("coset_ifft", 14, 5)]
